@@ -2,6 +2,7 @@ import OjgVerif.Common.Driver
 import OjgVerif.Json.Spec
 import OjgVerif.Json.Tables
 import OjgVerif.Json.BufModel
+import OjgVerif.Json.BufModelV
 /-! Driver ops of the JSON machine family. -/
 namespace OjgVerif.Json
 open OjgVerif
@@ -34,7 +35,9 @@ def parseChunks (s : String) : Option (List Nat) :=
 opts is a string of flags: `r` reader entry point, `f` parser integer fast loop.
 `runbuf …` (same arguments): the BUFFER-LEVEL model `runB` of oj.Parser / gen.Parser (`Json/BufModel.lean`:
 one `parseBuffer` call per read buffer, every fast path explicit); the chunk lengths are the sizes of
-the reads the implementation actually saw. Only for the parsers (`f`). -/
+the reads the implementation actually saw. Only for the parsers (`f`).
+`runbufv …` / `runbuft …`: the buffer-level models of oj.Validator (`runBV`) and oj.Tokenizer (`runBT`)
+(`Json/BufModelV.lean`); only without `f`. -/
 def handle : List String → String
   | ["spec", hx] =>
     match ofHex hx with
@@ -62,6 +65,24 @@ def handle : List String → String
       else
         let cfg : Cfg := { onlyOne := md = "single", reader := opts.contains 'r', fastInt := true }
         renderRun (runB T cfg FP.all (if ns.isEmpty then [bs] else splitChunks bs ns))
+    | _, _, _ => "bad-op"
+  | ["runbufv", fe, md, opts, chunks, hx] =>
+    match ofHex hx, tablesOf fe, parseChunks chunks with
+    | some bs, some T, some ns =>
+      if md ≠ "single" && md ≠ "multi" then "bad-op"
+      else if opts.toList.any (fun c => c ≠ 'r' && c ≠ '-') then "bad-op"
+      else
+        let cfg : Cfg := { onlyOne := md = "single", reader := opts.contains 'r', fastInt := false }
+        renderRun (runBV T cfg (if ns.isEmpty then [bs] else splitChunks bs ns))
+    | _, _, _ => "bad-op"
+  | ["runbuft", fe, md, opts, chunks, hx] =>
+    match ofHex hx, tablesOf fe, parseChunks chunks with
+    | some bs, some T, some ns =>
+      if md ≠ "single" && md ≠ "multi" then "bad-op"
+      else if opts.toList.any (fun c => c ≠ 'r' && c ≠ '-') then "bad-op"
+      else
+        let cfg : Cfg := { onlyOne := md = "single", reader := opts.contains 'r', fastInt := false }
+        renderRun (runBT T cfg (if ns.isEmpty then [bs] else splitChunks bs ns))
     | _, _, _ => "bad-op"
   | _ => "bad-op"
 
